@@ -209,7 +209,12 @@ func copyToSelectedData[T any](remoteWrite bool, existingData []T, filterData *F
 				continue
 			}
 
+			oldItem := existingData[i]
 			CopyNonNilDataFromItemToItem(newData, &existingData[i])
+			// a remote write must not change the write check field
+			if remoteWrite {
+				restoreWriteCheckField(oldItem, &existingData[i])
+			}
 			break
 		}
 	}
@@ -235,7 +240,12 @@ func copyToAllData[T any](remoteWrite bool, existingData []T, newData *T) ([]T, 
 			continue
 		}
 
+		oldItem := existingData[i]
 		CopyNonNilDataFromItemToItem(newData, &existingData[i])
+		// a remote write must not change the write check field
+		if remoteWrite {
+			restoreWriteCheckField(oldItem, &existingData[i])
+		}
 	}
 
 	return existingData, success
@@ -259,9 +269,16 @@ func deleteFilteredData[T any](remoteWrite bool, existingData []T, filterData *F
 
 	var result []T
 	for i := range existingData {
+		// an item that is not addressed by the filter stays as it is and does not influence the result
+		if filterData.Selector != nil && !filterData.SelectorMatch(util.Ptr(existingData[i])) {
+			result = append(result, existingData[i])
+			continue
+		}
+
 		writeAllowed := writeAllowed(existingData[i])
 		if !writeAllowed && remoteWrite {
 			success = false
+			result = append(result, existingData[i])
 			continue
 		}
 
@@ -270,7 +287,12 @@ func deleteFilteredData[T any](remoteWrite bool, existingData []T, filterData *F
 
 			// remove the fields defined in element if the item matches
 			if filterData.SelectorMatch(util.Ptr(existingData[i])) {
+				oldItem := existingData[i]
 				RemoveElementFromItem(&existingData[i], filterData.Elements)
+				// a remote write must not remove the write check field
+				if remoteWrite {
+					restoreWriteCheckField(oldItem, &existingData[i])
+				}
 				result = append(result, existingData[i])
 			} else {
 				result = append(result, existingData[i])
@@ -286,12 +308,34 @@ func deleteFilteredData[T any](remoteWrite bool, existingData []T, filterData *F
 			// only elements filter
 
 			// remove the fields defined in element
+			oldItem := existingData[i]
 			RemoveElementFromItem(&existingData[i], filterData.Elements)
+			// a remote write must not remove the write check field
+			if remoteWrite {
+				restoreWriteCheckField(oldItem, &existingData[i])
+			}
 			result = append(result, existingData[i])
 		}
 	}
 
 	return result, success
+}
+
+// set the write check field of destination to the value it has in source
+func restoreWriteCheckField[T any](source T, destination *T) {
+	sV := reflect.ValueOf(source)
+	dV := reflect.ValueOf(destination).Elem()
+	if sV.Kind() != reflect.Struct {
+		return
+	}
+
+	for _, fieldName := range fieldNamesWithEEBusTag(EEBusTagWriteCheck, source) {
+		f := dV.FieldByName(fieldName)
+		if !f.IsValid() || !f.CanSet() {
+			continue
+		}
+		f.Set(sV.FieldByName(fieldName))
+	}
 }
 
 func isFieldValueNil(field interface{}) bool {
